@@ -3,14 +3,24 @@ import DL.Lemmas.CFSound4
 /-! Soundness invariant: `while`. -/
 namespace DL.CF
 
-theorem while_n (ls : List Id) (p : Nat) (test : Kids) (tt : Bool) (body : Stmt) :
-    (Stmt.compl ls (.whileS p test tt body)).n = (!tt || (body.compl []).b) ∧
-    (Stmt.compl ls (.whileS p test tt body)).b = false ∧ (Stmt.compl ls (.whileS p test tt body)).c = false ∧
-    ((Stmt.compl ls (.whileS p test tt body)).hasCl = true → (body.compl []).hasCl = true) := by
-  refine ⟨by simp [Stmt.compl], by simp [Stmt.compl], by simp [Stmt.compl], ?_⟩
-  intro h
-  simp only [Stmt.compl, seq_hasCl, testCompl_hasCl, testCompl_n, Bool.true_and, Bool.false_or] at h
-  simpa using loopCompl_hasCl _ _ _ h
+/-- the completions of a `while` whose test has plain completions; `tcn` = the test can complete normally -/
+theorem while_fields (ls : List Id) (p : Nat) (test : Kids) (tt : Bool) (body : Stmt) (hpl : test.compl.plain = true) :
+    let s := Stmt.compl ls (.whileS p test tt body)
+    s.n = ((tt || test.compl.n) && (!tt || (body.compl []).b)) ∧ s.b = false ∧ s.c = false ∧
+    (s.hasCl = true → (body.compl []).hasCl = true) ∧
+    (s.t = true → (!tt && test.compl.t) = true ∨ (body.compl []).t = true) := by
+  have hp := testCompl_plain tt test hpl
+  refine ⟨?_, ?_, ?_, ?_, ?_⟩
+  · simp [Stmt.compl, testCompl_n]
+  · simp [Stmt.compl, Compl.plain_b hp]
+  · simp [Stmt.compl, Compl.plain_c hp]
+  · intro h
+    simp only [Stmt.compl, testComplOf_eq, seq_hasCl, Compl.plain_hasCl hp, union_hasCl, guard_hasCl, abrupt_hasCl, Bool.false_or,
+      Bool.and_false, Bool.or_false, Bool.and_eq_true] at h
+    exact loopCompl_hasCl _ _ _ h.2
+  · intro h
+    simp only [Stmt.compl, testComplOf_eq, seq_t, testCompl_t, loopCompl_t, union_t, guard_t, abrupt_t] at h
+    revert h; cases tt <;> cases test.compl.t <;> cases (body.compl []).t <;> simp
 
 /-- position facts shared by the loop statements: `p :: (kps ++ bps)` without duplicates -/
 structure Split (p : Nat) (kps bps : List Nat) : Prop where
@@ -26,19 +36,15 @@ theorem Split.of {p : Nat} {kps bps : List Nat} (h : (p :: (kps ++ bps)).Nodup) 
   exact ⟨fun h => hnd.1 (List.mem_append.mpr (Or.inl h)), fun h => hnd.1 (List.mem_append.mpr (Or.inr h)),
     hnd2.1, hnd2.2.1, fun q h1 h2 => hnd2.2.2 q h1 q h2 rfl⟩
 
-theorem while_t (ls : List Id) (p : Nat) (test : Kids) (tt : Bool) (body : Stmt)
-    (h : (Stmt.compl ls (.whileS p test tt body)).t = true) : (!tt && test.mayThrow) = true ∨ (body.compl []).t = true := by
-  simp only [Stmt.compl, seq_t, testCompl_t, testCompl_n, loopCompl_t, union_t, guard_t, abrupt_t, Bool.true_and] at h
-  revert h; cases tt <;> cases test.mayThrow <;> cases (body.compl []).t <;> simp
-
 theorem not_stops_of {x : Option End} {b : Bool} (h : stopsEnd x = true → b = false) (hb : b = true) : stopsEnd x = false := by
   cases hs : stopsEnd x with
   | false => rfl
   | true => rw [h hs] at hb; cases hb
 
 theorem while_ok (live : Bool) (ls : List Id) (p : Nat) (test : Kids) (tt : Bool) (body : Stmt) (a : A)
+    (hpl : test.compl.plain = true) (htt : tt = true → test.pure = true)
     (hpre : Pre live (p :: (test.positions ++ body.positions)) a)
-    (ihk : ∀ x, PreK test.positions x → PostK test.upos test.positions test.inner test.mayThrow x (visitKids test x))
+    (ihk : ∀ (l : Bool) x, Pre l test.positions x → KidsL l test x (visitKids test x))
     (ih : ∀ a0, Pre live body.positions a0 → PostS live [] body a0 (visitStmt body a0)) :
     PostS live ls (.whileS p test tt body) a (visitStmt (.whileS p test tt body) a) := by
   have hsp := Split.of hpre.nodup
@@ -52,25 +58,32 @@ theorem while_ok (live : Bool) (ls : List Id) (p : Nat) (test : Kids) (tt : Bool
   generalize withChild .loop body.pos (fun x => whileTail tt body.isDeclOrExpr body.pos (visitStmt body x)) (flagA a p .other) = r at hc
   have hrk : ∀ q, q ∈ test.positions → r.info q = (flagA a p .other).info q := fun q hq =>
     hc.frame q (by simp only [List.mem_cons, not_or]; exact ⟨fun e => hsp.pk (e ▸ hq), fun h => hsp.disj q hq h⟩) (by simp)
-  have hprek : PreK test.positions r := by
-    refine ⟨fun q hq => ?_, hsp.ndk⟩
+  have hprek : Pre (live && (!tt || (body.compl []).b)) test.positions r := by
+    refine ⟨hc.stop, fun q hq => ?_, hsp.ndk⟩
     rw [endAt_eq_of_info_eq (hrk q hq), flagA_endAt]
     exact hpre.fresh q (List.mem_cons_of_mem _ (List.mem_append.mpr (Or.inl hq)))
-  have hk := ihk r hprek
+  have hk := ihk _ r hprek
   generalize visitKids test r = fin at hk
-  obtain ⟨hn, hb0, hc0, hl0⟩ := while_n ls p test tt body
+  obtain ⟨hn, hb0, hc0, hl0, ht0⟩ := while_fields ls p test tt body hpl
+  -- a test known to be true is pure: it completes normally, cannot throw, and nothing is nested in it
+  have htn : tt = true → test.compl.n = true := fun h => by rw [Kids.compl_pure test (htt h)]; rfl
   have htu : ∀ q, q ∈ test.upos → q ≠ p ∧ q ∉ body.positions := fun q hq =>
     ⟨fun e => hsp.pk (e ▸ Kids.upos_sub test q hq), fun h => hsp.disj q (Kids.upos_sub test q hq) h⟩
   have hbu : ∀ q, q ∈ body.upos → q ≠ p ∧ q ∉ test.positions := fun q hq =>
     ⟨fun e => hsp.pb (e ▸ Stmt.upos_sub body q hq), fun h => hsp.disj q h (Stmt.upos_sub body q hq)⟩
   refine ⟨⟨?_, ?_, ?_, ?_, ?_, ?_, ?_, ?_, ?_, ?_, ?_⟩, ?_⟩
-  · intro hst; rw [hk.end_] at hst; rw [hn]; exact hc.stop hst
+  · intro hst
+    have := hk.p1 hst
+    rw [hn]
+    cases tt with
+    | false => simpa [Bool.and_comm, Bool.and_assoc] using this
+    | true => rw [htn rfl] at this; simpa using this
   · simp [hb0]
   · simp [hc0]
-  · intro hh; rw [hk.fb, hc.fbk]; exact hh
-  · intro hh; exact hk.fc (hc.fc hh)
+  · intro hh; apply hk.monoB; rw [hc.fbk]; exact hh
+  · intro hh; exact hk.monoC (hc.fc hh)
   · intro hh
-    apply hk.fc; apply hc.fcBody
+    apply hk.monoC; apply hc.fcBody
     revert hh hl0; cases live <;> cases (Stmt.compl ls (.whileS p test tt body)).hasCl <;> simp
   · intro q hq hu
     simp only [Stmt.upos, List.mem_cons, List.mem_append] at hq
@@ -79,30 +92,35 @@ theorem while_ok (live : Bool) (ls : List Id) (p : Nat) (test : Kids) (tt : Bool
     · rw [ur_eq_of_info_eq (hk.frame q hsp.pk), hc.urp] at hu
       have := own_pos_dead hpre q .other _ rfl hu
       simp [this]
-    · simp [(htu q hqt).1, body.reach_false q (htu q hqt).2]
+    · have := hk.p3 q hqt hu
+      cases tt with
+      | true => simp [(htu q hqt).1, body.reach_false q (htu q hqt).2, Kids.flowReach_pure test q (htt rfl)]
+      | false =>
+        revert this; cases live <;> simp [(htu q hqt).1, body.reach_false q (htu q hqt).2]
     · rw [ur_eq_of_info_eq (hk.frame q (hbu q hqb).2)] at hu
       have := hc.p3 q hqb hu
-      revert this; cases live <;> simp [(hbu q hqb).1]
+      revert this; cases live <;> simp [(hbu q hqb).1, Kids.flowReach_false test q (hbu q hqb).2]
+      intro h _; exact h
   · intro q hq hu
     simp only [Stmt.upos, List.mem_cons, List.mem_append] at hq
     simp only [Stmt.inner]
     rcases hq with rfl | hqt | hqb
     · simp [Kids.inner_false test q hsp.pk, body.inner_false q hsp.pb]
-    · simp [hk.p3 q hqt hu, body.inner_false q (htu q hqt).2]
+    · simp [hk.p3i q hqt hu, body.inner_false q (htu q hqt).2]
     · rw [ur_eq_of_info_eq (hk.frame q (hbu q hqb).2)] at hu
       simp [hc.p3i q hqb hu, Kids.inner_false test q (hbu q hqb).2]
   · intro q hq
     simp only [Stmt.positions, List.mem_cons, List.mem_append, not_or] at hq
     rw [hk.frame q hq.2.1, hc.frame q (by simp only [List.mem_cons, not_or]; exact ⟨hq.1, hq.2.2⟩) (by simp)]
     exact flagA_other a p .other q hq.1
-  · intro hh; exact hk.mt (hc.mt hh)
+  · intro hh; exact hk.monoT (hc.mt hh)
   · intro hh
     simp only [Bool.and_eq_true] at hh
-    rcases while_t ls p test tt body hh.2 with ht | ht
+    rcases ht0 hh.2 with ht | ht
     · simp only [Bool.and_eq_true, Bool.not_eq_true'] at ht
-      refine hk.pT (not_stops_of hc.stop ?_) ht.2
-      simp [hh.1, ht.1]
-    · exact hk.mt (hc.tBody (by simp [hh.1, ht]))
+      apply hk.pT
+      simp [hh.1, ht.1, ht.2]
+    · exact hk.monoT (hc.tBody (by simp [hh.1, ht]))
   · intro _ hst
     simp only [Stmt.pos] at hst
     rw [endAt_eq_of_info_eq (hk.frame p hsp.pk), hc.atP (by simp), flagA_endAt, hpre.fresh p (by simp)] at hst
